@@ -63,7 +63,7 @@ BOUNDS = {
                  "garbage_tokens": 4, "search_lines": 5, "search_lines_full_alphabet": 4, "time_lines": 5, "time_lines_extra_kinds": 4,
                  "time_formats": 9, "query_times": 5},
 }
-CAP_S = {"quick": 120, "thorough": 2400}
+CAP_S = {"quick": 300, "thorough": 3600}
 
 
 @functools.lru_cache(None)
